@@ -46,11 +46,13 @@ open Mqtt.Proofs.Broker (fwdOk)
 
 /-- The limits the framing model takes from the source are the ones the bounds below are
 stated for: at most four remaining-length bytes before CONNECT (`l > 4`), `cnt` from 2 to 5
-after it; the default ring holds 256 KiB; `handleConnection` and `processor` recover from a
-panic; an error of `processIncoming` other than DISCONNECT does not end the processor. -/
+after it; the default ring holds 256 KiB; `peekMessage` refuses a QoS 1/2 PUBLISH without packet
+identifier; `handleConnection` and `processor` recover from a panic; an error of
+`processIncoming` other than DISCONNECT does not end the processor. -/
 theorem C05_facts :
     Generated.framingPreMaxHeader = 4 ∧ Generated.framingPostCntStart = 2 ∧ Generated.framingPostMaxCnt = 5 ∧
-    Generated.defaultBufferSize = 262144 ∧ Generated.framingAcceptRecovers = true ∧
+    Generated.defaultBufferSize = 262144 ∧ Generated.framingRejectsPublishIdZero = true ∧
+    Generated.framingAcceptRecovers = true ∧
     Generated.framingProcessorRecovers = true ∧ Generated.framingNonFatalContinues = true := by decide
 
 /-! ### 1. decoding is total -/
@@ -83,12 +85,13 @@ theorem C05_framing_total_pre (stream : Bytes) :
 /-- **After CONNECT**, for every ring size and every byte stream: one round of the processor
 loop (`peekMessageSize`, `peekMessage`) ends in a decoded packet, `needMore` or `closeThis` —
 never in a panic (nor in the model's own loop bound).  A packet is decoded from exactly the
-first `total` bytes of that stream, with `1 ≤ total ≤` ring size, and every (copying) read asks
-for at most the ring size. -/
+first `total` bytes of that stream, with `1 ≤ total ≤` ring size, it is not a QoS 1/2 PUBLISH
+without packet identifier, and every (copying) read asks for at most the ring size. -/
 theorem C05_framing_total_post (sz : Nat) (avail : Bytes) :
     (nextPacket sz avail).outcome ≠ .panicked ∧ (nextPacket sz avail).outcome ≠ .stuck ∧
     (∀ d total, (nextPacket sz avail).outcome = .packet d total →
-      1 ≤ total ∧ total ≤ avail.length ∧ total ≤ sz ∧ ∃ t, decodeNew t (avail.take total) = .ok d) ∧
+      1 ≤ total ∧ total ≤ avail.length ∧ total ≤ sz ∧ (∃ t, decodeNew t (avail.take total) = .ok d) ∧
+      publishIdMissing d.msg = false) ∧
     (∀ a ∈ (nextPacket sz avail).allocs, a ≤ sz) :=
   nextPacket_spec sz avail
 
@@ -105,8 +108,8 @@ theorem C05_framing_outcomes (sz : Nat) (avail : Bytes) :
   | stuck => exact absurd h h2
 
 /-- non-vacuity: a PINGREQ is framed and decoded; one byte of it is `needMore`; a fifth length
-byte, a packet larger than the ring, packet types 0 and 15, and a PUBLISH with a topic running
-past its remaining length are `closeThis`; before CONNECT `10 ff ff ff ff 7f` is an error after
+byte, a packet larger than the ring, packet types 0 and 15, a PUBLISH with a topic running
+past its remaining length and a QoS 1 PUBLISH with packet identifier 0 are `closeThis`; before CONNECT `10 ff ff ff ff 7f` is an error after
 five bytes (no allocation beyond them), and `10 ff ff ff 7f` waits with 268 435 455 bytes
 allocated. -/
 example :
@@ -117,6 +120,7 @@ example :
     (nextPacket 16384 [0x00, 0x00]).outcome = .closeThis ∧
     (nextPacket 16384 [0xf0, 0x00]).outcome = .closeThis ∧
     (nextPacket 16384 [0x30, 0x03, 0x00, 0x09, 0x61, 0x62]).outcome = .closeThis ∧
+    (nextPacket 16384 [0x32, 0x06, 0x00, 0x01, 0x77, 0x00, 0x00, 0xaa]).outcome = .closeThis ∧
     getConnectMessage [0x10, 0xff, 0xff, 0xff, 0xff, 0x7f] = ⟨.error, [1, 5]⟩ ∧
     getConnectMessage [0x10, 0xff, 0xff, 0xff, 0x7f] = ⟨.needMore, [1, 5, 268435455, 268435460]⟩ := by
   decide
@@ -239,6 +243,15 @@ theorem C05_stream_is_events_of_A (sz A fuel : Nat) (avail : Bytes) :
   intro auth ends e rest h
   obtain ⟨⟨f, a, rfl⟩, hk⟩ := firstEvent_shape A auth avail ends e rest h
   exact ⟨by simp [onConn], hk⟩
+
+/-- **No malformed PUBLISH is passed on.**  Every PUBLISH the framing hands to the broker model
+has QoS 0 or a non-zero packet identifier — so the hypothesis of `C01_fanout_char` /
+`C01_fanout_ids` on identifiers holds for everything a byte stream can make the broker forward,
+and no subscriber is written a QoS 1/2 PUBLISH without identifier because of what another
+connection sent (finding E11, repaired). -/
+theorem C05_forwarded_publish_has_id (sz A fuel : Nat) (avail : Bytes) (p : Pub)
+    (h : Ev.packet A (.publish p) ∈ (postEvents sz A fuel avail).1) : p.qos = 0 ∨ p.pktid ≠ 0 :=
+  postEvents_publish_ids sz A fuel avail p h
 
 /-- **The property on the model.**  For every broker state, every connection `A`, every byte
 stream sent as the first thing on `A` and every byte stream sent afterwards, cut anywhere
